@@ -32,7 +32,8 @@ LIT = {
     "text": LIT_COMMON + ['"', "'", ">", "&lt;", "&nbsp;"],
     "dq": LIT_COMMON + ["'", ">", "&quot;", "&lt;"],
     "sq": LIT_COMMON + ['"', ">", "&lt;"],
-    "comment": LIT_COMMON + ['"', "'", "<", "> ", "<b>"],
+    "comment": LIT_COMMON + ['"', "'", "<", "> ", "<b>", "!", "?", "!x",
+                             "- "],
     "cdata": LIT_COMMON + ['"', "'", "<", ">", "<b>", "]"],
 }
 
@@ -149,8 +150,8 @@ def site_source(s):
             src += " "
         if src[:1] in "!?>" and s["ctx"] == "comment":
             src = " " + src
-        if s["ctx"] == "comment?":
-            src = src.lstrip("<!-?")   # documented: marker chars stripped
+        # (a <!--? comment keeps its own text verbatim, whatever it starts
+        # with: only the marker is removed)
     if base == "cdata":
         while "]]>" in src:
             src = src.replace("]]>", "]] >")
